@@ -126,6 +126,10 @@ type declInfo struct {
 	decl *ast.FuncDecl
 	ok   bool // body can be inlined
 	why  string
+	// defers: defer statements that are elements of the body's statement list; nestedDefer: a defer deeper
+	// inside (only acceptable for a call in tail position, where it stays a defer of the caller)
+	defers      []*ast.DeferStmt
+	nestedDefer bool
 }
 
 func hasTypeParam(t types.Type) bool {
@@ -211,7 +215,17 @@ func inlinePass(ref RefDecls, pkgs []*packages.Package, overlay map[string][]byt
 					case *ast.FuncLit:
 						return false
 					case *ast.DeferStmt:
-						di.ok, di.why = false, "defer"
+						top := false
+						for _, st := range fd.Body.List {
+							if st == ast.Stmt(x) {
+								top = true
+							}
+						}
+						if top {
+							di.defers = append(di.defers, x)
+						} else {
+							di.nestedDefer = true
+						}
 					case *ast.CallExpr:
 						if id, ok := x.Fun.(*ast.Ident); ok && id.Name == "recover" {
 							di.ok, di.why = false, "recover"
@@ -406,7 +420,11 @@ func blankLines(b []byte) string {
 	return strings.Repeat("\n", n)
 }
 
-type stackItem struct{ n ast.Node }
+func dbg(format string, a ...any) {
+	if os.Getenv("SA_INLINE_DEBUG") != "" {
+		fmt.Fprintf(os.Stderr, "   inline: "+format+"\n", a...)
+	}
+}
 
 func (il *inliner) inlineInFile(pk *packages.Package, f *ast.File, nf map[*types.Func]bool, decls map[*types.Func]*declInfo, remaining, inlined map[*types.Func]int) {
 	info := pk.TypesInfo
@@ -461,6 +479,9 @@ func (il *inliner) inlineInFile(pk *packages.Package, f *ast.File, nf map[*types
 			handledIdent[fn.Sel] = true
 		}
 		if di == nil || !di.ok {
+			if di != nil {
+				dbg("%s not inlinable: %s", callee.Name(), di.why)
+			}
 			remaining[callee]++
 			return true
 		}
@@ -478,6 +499,7 @@ func (il *inliner) inlineInFile(pk *packages.Package, f *ast.File, nf map[*types
 		if il.inlineCall(pk, f, file, st, call, callee, di, usedStmt, text) {
 			inlined[callee]++
 		} else {
+			dbg("call of %s at %s refused", callee.Name(), pk.Fset.Position(call.Pos()))
 			remaining[callee]++
 		}
 		return true
@@ -676,6 +698,30 @@ func (il *inliner) inlineCall(pk *packages.Package, f *ast.File, file string, st
 		return false // one call per statement and pass
 	}
 
+	tail := false
+	if rs, ok := ins.stmt.(*ast.ReturnStmt); ok && len(rs.Results) == 1 && ast.Unparen(rs.Results[0]) == ast.Expr(call) {
+		tail = true
+	}
+	if ins.dropStmt {
+		for i := len(stack) - 1; i > 0; i-- {
+			if fd, ok := stack[i].(*ast.FuncDecl); ok && fd.Body != nil && len(fd.Body.List) > 0 && fd.Body.List[len(fd.Body.List)-1] == ins.stmt {
+				tail = true
+			}
+		}
+	}
+	convertDefers := false
+	if len(di.defers) > 0 || di.nestedDefer {
+		switch {
+		case ins.literalize, tail:
+			// a literal keeps its own defers; in tail position the defers run where they ran before
+		default:
+			// defer statements of the body's statement list become calls after the body; a defer nested deeper
+			// stays a defer (of the caller: it runs later than it did in the callee — when the callee was cut
+			// out of this caller that is where it ran before)
+			convertDefers = true
+		}
+	}
+
 	il.seq++
 	k := fmt.Sprintf("inl%d_%d", il.pass, il.seq)
 	label := k + "_L"
@@ -705,9 +751,13 @@ func (il *inliner) inlineCall(pk *packages.Package, f *ast.File, file string, st
 			case nres == 0:
 				bodyEdits = append(bodyEdits, textEdit{rs, re, "break " + label, 0})
 			case len(x.Results) == 0:
-				bodyEdits = append(bodyEdits, textEdit{rs, re, "{ " + strings.Join(resTemps, ", ") + " = " + strings.Join(resultNames, ", ") + "; break " + label + " }", 0})
+				bodyEdits = append(bodyEdits, textEdit{rs, re, "break " + label, 0})
 			default:
-				bodyEdits = append(bodyEdits, textEdit{rs, re, "{ " + strings.Join(resTemps, ", ") + " = ", 0})
+				lhs := resTemps
+				if len(resultNames) > 0 {
+					lhs = resultNames // named results are copied to the temporaries after the deferred calls
+				}
+				bodyEdits = append(bodyEdits, textEdit{rs, re, "{ " + strings.Join(lhs, ", ") + " = ", 0})
 				e := ctf.Offset(x.End()) - bodyStart
 				bodyEdits = append(bodyEdits, textEdit{e, e, " ; break " + label + " }", 0})
 			}
@@ -715,6 +765,53 @@ func (il *inliner) inlineCall(pk *packages.Package, f *ast.File, file string, st
 		return true
 	}
 	ast.Inspect(di.decl.Body, walkBody)
+	var deferFlags, deferPost []string
+	if convertDefers {
+		var returns []token.Pos
+		ast.Inspect(di.decl.Body, func(n ast.Node) bool {
+			if _, isLit := n.(*ast.FuncLit); isLit {
+				return false
+			}
+			if r, ok := n.(*ast.ReturnStmt); ok {
+				returns = append(returns, r.Pos())
+			}
+			return true
+		})
+		for i, d := range di.defers {
+			cs, ce := ctf.Offset(d.Call.Pos())-bodyStart, ctf.Offset(d.Call.End())-bodyStart
+			// the call text with the edits that fall inside it (package aliases)
+			var inner, rest []textEdit
+			for _, e := range bodyEdits {
+				if e.off >= cs && e.end <= ce {
+					inner = append(inner, e)
+				} else {
+					rest = append(rest, e)
+				}
+			}
+			bodyEdits = rest
+			ct := append([]byte(nil), csrc[bodyStart+cs:bodyStart+ce]...)
+			sort.SliceStable(inner, func(a, b int) bool { return inner[a].off > inner[b].off })
+			for _, e := range inner {
+				ct = append(ct[:e.off-cs], append([]byte(e.text), ct[e.end-cs:]...)...)
+			}
+			needFlag := false
+			for _, rp := range returns {
+				if rp < d.Pos() {
+					needFlag = true
+				}
+			}
+			ds, de := ctf.Offset(d.Pos())-bodyStart, ctf.Offset(d.End())-bodyStart
+			if needFlag {
+				fl := fmt.Sprintf("%s_d%d", k, i)
+				deferFlags = append(deferFlags, fl)
+				bodyEdits = append(bodyEdits, textEdit{ds, de, fl + " = true", 0})
+				deferPost = append([]string{"if " + fl + " { " + string(ct) + " }"}, deferPost...)
+			} else {
+				bodyEdits = append(bodyEdits, textEdit{ds, de, "", 0})
+				deferPost = append([]string{string(ct)}, deferPost...)
+			}
+		}
+	}
 	body := append([]byte(nil), csrc[bodyStart:ctf.Offset(di.decl.Body.End())]...)
 	sort.SliceStable(bodyEdits, func(i, j int) bool {
 		if bodyEdits[i].off != bodyEdits[j].off {
@@ -750,12 +847,19 @@ func (il *inliner) inlineCall(pk *packages.Package, f *ast.File, file string, st
 	for i, n := range resultNames {
 		fmt.Fprintf(&b, "var %s %s; _ = %s; ", n, typeText(sig.Results().At(i).Type()), n)
 	}
+	for _, fl := range deferFlags {
+		fmt.Fprintf(&b, "var %s bool; ", fl)
+	}
 	fmt.Fprintf(&b, "%s: for { ", label)
 	b.Write(body)
-	if nres > 0 && len(resultNames) > 0 {
-		// falling off the end is impossible for a function with results
+	fmt.Fprintf(&b, "\nbreak %s }\n", label)
+	for _, dp := range deferPost {
+		b.WriteString(dp + "\n")
 	}
-	fmt.Fprintf(&b, "\nbreak %s } } }\n", label)
+	if len(resultNames) > 0 {
+		fmt.Fprintf(&b, "%s = %s\n", strings.Join(resTemps, ", "), strings.Join(resultNames, ", "))
+	}
+	b.WriteString("} }\n")
 	if bad {
 		return false
 	}
